@@ -66,6 +66,7 @@ type c12Fix struct {
 	// inputs (on read-only trap pages)
 	tb, tj, pb, pj, hj, hrespb []byte
 	bbJ                        []byte // JSON with long base64 values, start-aligned
+	tjSpare, pjSpare           []byte // the JSON inputs as sub-slices with spare capacity, ending just in front of a page boundary
 	hrespMsg, hrespMsgTrunc    []byte // reply envelope around hrespb (and a truncated one)
 	excb                       []byte // response wrapper carrying the exception field
 	bigT, bigJ                 []byte // a message whose encodings exceed every pooled buffer's default size
@@ -537,6 +538,8 @@ func (f *c12Fix) ops() []c12Op {
 			err := d.j2p.DoInto(ctx, d.p, f.pj, &buf)
 			return resStr(buf, err)
 		}},
+		{"j2t.Do-spare-capacity", func(d *c12Descs) (string, []byte) { return resStr(d.j2t.Do(ctx, d.t, f.tjSpare)) }},
+		{"j2p.Do-spare-capacity", func(d *c12Descs) (string, []byte) { return resStr(d.j2p.Do(ctx, d.p, f.pjSpare)) }},
 		{"j2p.Do-long-bytes", func(d *c12Descs) (string, []byte) {
 			// long base64 texts, on a read-only input that starts (not ends) at a page boundary: the converter
 			// sees the caller's memory itself, and a write to it faults
@@ -658,6 +661,13 @@ func c12Fixture(cs *h.Case) *c12Fix {
 	pj, _ := PRenderJSON(cs.R, m, PJSpell{})
 	hresp := tref.Struct(tref.Field{ID: 1, V: tref.Str("message")}, tref.Field{ID: 2, V: tref.Int32(201)}, tref.Field{ID: 3, V: tref.Str("hdr")}, tref.Field{ID: 4, V: tref.Str("cookie")})
 	f.tb, f.tj, f.pb, f.pj = f.trap(tb), f.trap([]byte(tj)), f.trap(pb), f.trap([]byte(pj))
+	{
+		// a document inside a larger read-only buffer: what lies behind len() belongs to the caller as well
+		a := h.TrapSpare([]byte(tj), cs.R.Intn(64), true)
+		b := h.TrapSpare([]byte(pj), cs.R.Intn(64), true)
+		f.traps = append(f.traps, a, b)
+		f.tjSpare, f.pjSpare = a.B, b.B
+	}
 	f.hj = f.trap([]byte(`{"Plain":123456789012,"Dflt":"d"}`))
 	f.hrespb = f.trap(tref.Encode(hresp))
 	f.excb = f.trap(tref.Encode(tref.Struct(tref.Field{ID: 1, V: tref.Struct(
